@@ -34,7 +34,9 @@ type WorkerArgs struct {
 func cpuNow() time.Duration {
 	var ru syscall.Rusage
 	_ = syscall.Getrusage(syscall.RUSAGE_SELF, &ru)
-	return time.Duration(ru.Utime.Nano() + ru.Stime.Nano())
+	// user time only: a loop that never ends burns user time; system time also grows with page reclaim and
+	// scheduling overhead on an overloaded machine (two unreproducible "hangs" in ordinary code were seen under such load)
+	return time.Duration(ru.Utime.Nano())
 }
 
 var curCaseStartCPU atomic.Int64 // ns; 0 = no case running
